@@ -83,6 +83,36 @@ pub fn write<'a, T>(
     got.expect("block_until returned without the lock")
 }
 
+/// `std::time::Instant` that follows the simulated wall clock while a simulator provides one (and is
+/// the real monotonic clock otherwise).
+#[derive(Clone, Copy, Debug, PartialEq, Eq, PartialOrd, Ord)]
+pub struct Instant(std::time::Instant);
+
+#[allow(missing_docs)]
+impl Instant {
+    pub fn now() -> Self {
+        use std::sync::OnceLock;
+        static BASE: OnceLock<(std::time::Instant, SystemTime)> = OnceLock::new();
+        match now() {
+            Some(t) => {
+                let (i0, t0) = *BASE.get_or_init(|| (std::time::Instant::now(), t));
+                Instant(i0 + t.duration_since(t0).unwrap_or_default())
+            }
+            None => Instant(std::time::Instant::now()),
+        }
+    }
+    pub fn elapsed(&self) -> std::time::Duration {
+        Self::now() - *self
+    }
+}
+
+impl core::ops::Sub for Instant {
+    type Output = std::time::Duration;
+    fn sub(self, other: Instant) -> std::time::Duration {
+        self.0.saturating_duration_since(other.0)
+    }
+}
+
 /// Atomics that are a possible preemption point before every operation (so that a simulator can
 /// interleave threads between any two atomic accesses); with no hook table installed they are
 /// plain `std` atomics.
